@@ -380,8 +380,9 @@ def run(ctx: Ctx) -> None:
     logdir = tempfile.mkdtemp(prefix="pfverif_c05root_")
     try:
         # "multiplain+picker": the two-output function without MapSpec returns a mapping picked by a custom output_picker
-        scen_names = ["reduce", "multi", "multiplain+picker"] if quick else \
-            ["reduce", "partial", "multi", "chain", "gen", "twogen", "multiplain", "multiplain+picker"]
+        # "reduce+tuple": the single result of every function without MapSpec is itself a tuple (one value for one name)
+        scen_names = ["reduce+tuple", "multi", "multiplain+picker"] if quick else \
+            ["reduce", "reduce+tuple", "partial", "multi", "chain", "gen", "twogen", "multiplain", "multiplain+picker"]
         storages = ["file_array", "dict"] if quick else ["file_array", "dict", "shared_memory_dict"]
         hist: list[dict] = []
         opsof: list[list] = []
@@ -398,6 +399,11 @@ def run(ctx: Ctx) -> None:
                 for f in scen["desc"]["funcs"]:
                     if len(f["outputs"]) > 1:
                         f["picker"] = True
+            if sn.endswith("+tuple"):
+                scen = json.loads(json.dumps(scen))
+                for f in scen["desc"]["funcs"]:
+                    if len(f["outputs"]) == 1 and not f["has_ms"]:
+                        f["rettuple"] = True
             pdesc = pmap.tla_desc_to_py(scen["desc"])
             for st in storages:
                 folder = tempfile.mkdtemp(prefix="rec_", dir=logdir)
@@ -455,7 +461,7 @@ def run(ctx: Ctx) -> None:
     # a kept folder must not be reused for OTHER inputs (stale elements would be served): list and object-ndarray inputs
     logdir2 = tempfile.mkdtemp(prefix="pfverif_c05chg_")
     try:
-        for sn in scen_names[:2]:
+        for sn in ("reduce", "multi" if quick else "partial"):
             scen, _ = c03.export_schedules(ctx, sn, 1)
             pdesc = pmap.tla_desc_to_py(scen["desc"])
             changed = json.loads(json.dumps(scen["inputs"]).replace('"@a_0"', '"@CHANGED"'))
